@@ -84,6 +84,13 @@ func libAccepts(x []byte, src biscuit.PublickKeyByIDProjection) (accepted bool, 
 	return
 }
 
+// tokenHasNoKeyID reports whether the bytes decode to a token that carries no root key identifier
+// (callers other than C01's own families do not always know).
+func tokenHasNoKeyID(x []byte) bool {
+	env, err := wire.Decode(x)
+	return err == nil && env.RootKeyID == nil
+}
+
 func c01Present(c *core.C, m Mutant, origin string, keys map[string]ed25519.PublicKey, keyID *uint32, seen map[string]bool) {
 	h := sha256.Sum256(m.Bytes)
 	hk := hex.EncodeToString(h[:8])
@@ -103,6 +110,12 @@ func c01Present(c *core.C, m Mutant, origin string, keys map[string]ed25519.Publ
 		if keyID != nil && c.R.Intn(2) == 0 {
 			src = biscuit.WithRootPublicKeys(map[uint32]ed25519.PublicKey{*keyID: k}, nil)
 			via = "by-id"
+		} else if keyID == nil && c.R.Intn(3) == 0 && tokenHasNoKeyID(m.Bytes) {
+			// the key presented as the DEFAULT key of a key set (the token carries no identifier);
+			// the set also registers an unrelated key under an identifier
+			kk := k
+			src = biscuit.WithRootPublicKeys(map[uint32]ed25519.PublicKey{7: c01UnrelatedKey}, &kk)
+			via = "by-default-key"
 		}
 		acc, stage, errText, iters, unstable, pi := libAccepts(m.Bytes, src)
 		wit := func() any {
@@ -133,7 +146,7 @@ func c01Present(c *core.C, m Mutant, origin string, keys map[string]ed25519.Publ
 		case !v.chainOK && acc:
 			c.Violate("forged-token-accepted/"+m.Class, fmt.Sprintf("the library accepted a token whose chain is broken (%s) under the %s key", v.why, kn), wit())
 		case v.chainOK && !acc:
-			if m.MustAccept && via == "singular" {
+			if m.MustAccept && (via == "singular" || via == "by-default-key") {
 				c.Violate("valid-token-rejected/"+m.Class, fmt.Sprintf("a valid chain (%s) was rejected at %s: %s", m.Class, stage, errText), wit())
 			} else if via == "singular" {
 				c.Count("reference_accepts_library_rejects:"+stage, 1)
